@@ -62,18 +62,30 @@ Proof.
   apply Nat.ltb_ge. unfold rc_text, refs. rewrite Hh. cbn. lia.
 Qed.
 
+Lemma head_ref_false w o app : head_ref w o app = false -> ~ In o (held w).
+Proof. unfold head_ref, rc_head. intros H. apply Nat.ltb_ge in H. apply refs_zero. lia. Qed.
+
+Lemma head_ref_nothing_held w o app : held w = [] -> head_ref w o app = false.
+Proof. intros Hh. unfold head_ref, rc_head, refs. rewrite Hh. cbn [count_occ]. apply Nat.ltb_ge. lia. Qed.
+
 Lemma keep_nothing_held w x : held w = [] -> keep w x = false.
 Proof.
-  intros Hh. unfold keep. rewrite !app_ref_nothing_held by exact Hh. rewrite andb_false_r, !orb_false_r.
+  intros Hh. unfold keep. rewrite !app_ref_nothing_held, !head_ref_nothing_held by exact Hh.
+  rewrite !andb_false_r, !orb_false_r.
   unfold node_referenced, threshold, rc_node, rc_doc, refs. rewrite Hh. cbn [count_occ].
   apply Nat.ltb_ge. destruct (w_doc x); cbn; lia.
 Qed.
 
 Lemma keep_false w x : keep w x = false ->
-  node_referenced w x = false /\ (w_tag x = true -> app_ref w (w_dapp x) = false) /\ app_ref w (w_tapp x) = false.
+  node_referenced w x = false /\ ~ In (w_th x) (held w) /\ (w_tag x = true -> ~ In (w_dh x) (held w)) /\
+  (w_tag x = true -> app_ref w (w_dapp x) = false) /\ app_ref w (w_tapp x) = false.
 Proof.
-  unfold keep. intros H. apply orb_false_iff in H. destruct H as [H H3]. apply orb_false_iff in H.
-  destruct H as [H1 H2]. repeat split; try assumption. intros Ht. rewrite Ht in H2. exact H2.
+  unfold keep. intros H. apply orb_false_iff in H. destruct H as [H H5]. apply orb_false_iff in H.
+  destruct H as [H H4]. apply orb_false_iff in H. destruct H as [H H3]. apply orb_false_iff in H.
+  destruct H as [H1 H2]. split; [exact H1|]. split; [exact (head_ref_false _ _ _ H2)|]. split; [|split].
+  - intros Ht. rewrite Ht in H3. exact (head_ref_false _ _ _ H3).
+  - intros Ht. rewrite Ht in H4. exact H4.
+  - exact H5.
 Qed.
 
 (* ---------------------------------------------------------------- content *)
@@ -156,45 +168,39 @@ Proof.
   eapply nth_error_In. exact E.
 Qed.
 
-(* an evicted wrapper had no held object at any of its positions (heads: by the guard) *)
-Lemma evicted_positions_unheld w e x wh o : e_w e = Some x -> keep w x = false -> guard_entry w e = true ->
+(* an evicted wrapper had no held object at any of its positions *)
+Lemma evicted_positions_unheld w e x wh o : e_w e = Some x -> keep w x = false ->
   obj_at e wh = Some o -> ~ In o (held w).
 Proof.
-  intros Ew Hk Hg Ho. apply keep_false in Hk. destruct Hk as (Hn & Hd & Ht).
-  unfold guard_entry in Hg. rewrite Ew, Hn, orb_false_r in Hg. apply negb_true_iff, orb_false_iff in Hg.
-  destruct Hg as [Hg1 Hg2]. unfold obj_at in Ho. rewrite Ew in Ho. destruct wh.
+  intros Ew Hk Ho. apply keep_false in Hk. destruct Hk as (Hn & Hth & Hdh & Hd & Ht).
+  unfold obj_at in Ho. rewrite Ew in Ho. destruct wh.
   - injection Ho as <-. apply node_referenced_false in Hn. exact (proj1 Hn).
-  - destruct (w_tag x) eqn:Et; [|discriminate]. injection Ho as <-. cbn [andb] in Hg1.
-    intros Hin. apply mem_oid_in in Hin. congruence.
-  - injection Ho as <-. intros Hin. apply mem_oid_in in Hin. congruence.
+  - destruct (w_tag x) eqn:Et; [|discriminate]. injection Ho as <-. exact (Hdh eq_refl).
+  - injection Ho as <-. exact Hth.
   - destruct (w_tag x) eqn:Et; [|discriminate]. apply nth_error_id_in in Ho. destruct Ho as [t [Hin <-]].
     apply (app_ref_false w _ (Hd eq_refl) t Hin).
   - apply nth_error_id_in in Ho. destruct Ho as [t [Hin <-]]. apply (app_ref_false w _ Ht t Hin).
 Qed.
 
-Lemma gc_entry_identity w e e' : guard_entry w e = true -> gc_entry w e = Some e' ->
+Lemma gc_entry_identity w e e' : gc_entry w e = Some e' ->
   e_id e' = e_id e /\ forall wh o, In o (held w) -> obj_at e wh = Some o -> obj_at e' wh = Some o.
 Proof.
-  intros Hg He. unfold gc_entry in He. destruct (e_w e) as [x|] eqn:Ew.
+  intros He. unfold gc_entry in He. destruct (e_w e) as [x|] eqn:Ew.
   2:{ injection He as <-. split; [reflexivity|auto]. }
   destruct (keep w x) eqn:Hk.
   - injection He as <-. split; [reflexivity|auto].
   - destruct (if w_tag x then merge_slot (e_text e) (w_dapp x) else Some (e_text e)); [|discriminate].
     destruct (merge_slot (e_tail e) (w_tapp x)); [|discriminate]. injection He as <-. split; [reflexivity|].
-    intros wh ob Hin Ho. exfalso. exact (evicted_positions_unheld w e x wh ob Ew Hk Hg Ho Hin).
+    intros wh ob Hin Ho. exfalso. exact (evicted_positions_unheld w e x wh ob Ew Hk Ho Hin).
 Qed.
 
-Lemma identity_kept w w' : heads_guard w = true -> gc_step w = Some w' ->
+Lemma identity_kept w w' : gc_step w = Some w' ->
   Forall2 (fun e e' => e_id e' = e_id e /\
                        forall wh o, In o (held w) -> obj_at e wh = Some o -> obj_at e' wh = Some o) (ents w) (ents w').
 Proof.
-  intros Hg H. apply gc_step_ents in H. destruct H as [[_ ->]|(_ & _ & _ & HF)].
+  intros H. apply gc_step_ents in H. destruct H as [[_ ->]|(_ & _ & _ & HF)].
   - induction (ents w); constructor; auto.
-  - unfold heads_guard in Hg. rewrite forallb_forall in Hg.
-    assert (Hg' : Forall (fun e => guard_entry w e = true) (ents w)) by (apply Forall_forall; exact Hg).
-    clear Hg. induction HF as [|e e' l l' He Hl IH]; constructor; inversion Hg'; subst.
-    + apply gc_entry_identity; assumption.
-    + apply IH. assumption.
+  - induction HF as [|e e' l l' He Hl IH]; constructor; [apply gc_entry_identity; assumption|exact IH].
 Qed.
 
 (* appended text objects need no guard: a held appended text object keeps its place *)
@@ -205,7 +211,7 @@ Proof.
   intros He Hin. unfold gc_entry in He. destruct (e_w e) as [x|] eqn:Ew.
   2:{ injection He as <-. auto. }
   destruct (keep w x) eqn:Hk; [injection He as <-; auto|].
-  apply keep_false in Hk. destruct Hk as (_ & Hd & Ht). unfold obj_at. rewrite Ew. split; intros Ho; exfalso.
+  apply keep_false in Hk. destruct Hk as (_ & _ & _ & Hd & Ht). unfold obj_at. rewrite Ew. split; intros Ho; exfalso.
   - destruct (w_tag x) eqn:Et; [|discriminate]. apply nth_error_id_in in Ho. destruct Ho as [t [Hin' <-]].
     exact (app_ref_false w _ (Hd eq_refl) t Hin' Hin).
   - apply nth_error_id_in in Ho. destruct Ho as [t [Hin' <-]]. exact (app_ref_false w _ Ht t Hin' Hin).
@@ -233,17 +239,17 @@ Qed.
 Lemma unheld_ids w (l : list tobj) o : (forall t, In t l -> ~ In (t_id t) (held w)) -> In o (held w) -> ~ In o (map t_id l).
 Proof. intros H Hin Hm. apply in_map_iff in Hm. destruct Hm as [t [<- Ht]]. exact (H t Ht Hin). Qed.
 
-Lemma append_entry_evicted w e x o n : e_w e = Some x -> keep w x = false -> guard_entry w e = true ->
+Lemma append_entry_evicted w e x o n : e_w e = Some x -> keep w x = false ->
   In o (held w) -> content_entry (append_entry o n e) = content_entry e.
 Proof.
-  intros Ew Hk Hg Hin.
+  intros Ew Hk Hin.
   assert (Hdh : w_tag x = true -> w_dh x <> o).
-  { intros Et E. apply (evicted_positions_unheld w e x WDataHead o Ew Hk Hg); [|exact Hin].
+  { intros Et E. apply (evicted_positions_unheld w e x WDataHead o Ew Hk); [|exact Hin].
     unfold obj_at. rewrite Ew, Et, E. reflexivity. }
   assert (Hth : w_th x <> o).
-  { intros E. apply (evicted_positions_unheld w e x WTailHead o Ew Hk Hg); [|exact Hin].
+  { intros E. apply (evicted_positions_unheld w e x WTailHead o Ew Hk); [|exact Hin].
     unfold obj_at. rewrite Ew, E. reflexivity. }
-  apply keep_false in Hk. destruct Hk as (_ & Hd & Ht).
+  apply keep_false in Hk. destruct Hk as (_ & _ & _ & Hd & Ht).
   unfold append_entry, content_entry, dapps, tapps. rewrite Ew. cbn [e_id e_text e_tail e_w w_tag w_dapp w_tapp].
   apply Nat.eqb_neq in Hth. rewrite Hth.
   rewrite (ins_after_absent o n (w_tapp x)) by (apply (unheld_ids w); [apply app_ref_false; exact Ht|exact Hin]).
@@ -253,24 +259,22 @@ Proof.
   reflexivity.
 Qed.
 
-Lemma edit_entry w e e' o n : guard_entry w e = true -> gc_entry w e = Some e' -> In o (held w) ->
+Lemma edit_entry w e e' o n : gc_entry w e = Some e' -> In o (held w) ->
   content_entry (append_entry o n e') = content_entry (append_entry o n e).
 Proof.
-  intros Hg He Hin. pose proof (gc_entry_content w e e' He) as Hc. unfold gc_entry in He.
+  intros He Hin. pose proof (gc_entry_content w e e' He) as Hc. unfold gc_entry in He.
   destruct (e_w e) as [x|] eqn:Ew; [|injection He as <-; reflexivity].
   destruct (keep w x) eqn:Hk; [injection He as <-; reflexivity|].
-  rewrite (append_entry_evicted w e x o n Ew Hk Hg Hin), <- Hc.
+  rewrite (append_entry_evicted w e x o n Ew Hk Hin), <- Hc.
   destruct (if w_tag x then merge_slot (e_text e) (w_dapp x) else Some (e_text e)); [|discriminate].
   destruct (merge_slot (e_tail e) (w_tapp x)); [|discriminate]. injection He as <-. reflexivity.
 Qed.
 
-Lemma edits_take_effect w w' o n : heads_guard w = true -> gc_step w = Some w' -> In o (held w) ->
+Lemma edits_take_effect w w' o n : gc_step w = Some w' -> In o (held w) ->
   content (append_after o n w') = content (append_after o n w).
 Proof.
-  intros Hg H Hin. apply gc_step_ents in H. destruct H as [[_ ->]|(_ & _ & _ & HF)]; [reflexivity|].
-  unfold heads_guard in Hg. rewrite forallb_forall in Hg.
-  assert (Hg' : Forall (fun e => guard_entry w e = true) (ents w)) by (apply Forall_forall; exact Hg).
-  clear Hg. unfold content, append_after. cbn [ents].
-  induction HF as [|e e' l l' He Hl IH]; [reflexivity|]. inversion Hg'; subst. cbn [map].
-  rewrite (edit_entry w e e' o n) by assumption. f_equal. apply IH. assumption.
+  intros H Hin. apply gc_step_ents in H. destruct H as [[_ ->]|(_ & _ & _ & HF)]; [reflexivity|].
+  unfold content, append_after. cbn [ents].
+  induction HF as [|e e' l l' He Hl IH]; [reflexivity|]. cbn [map].
+  rewrite (edit_entry w e e' o n) by assumption. f_equal. exact IH.
 Qed.
